@@ -433,6 +433,10 @@ func (sc *scenario) mkArg(o optSpecC) am.Arg {
 	case "convfunc":
 		var fs []*am.Func
 		for _, id := range o.Fids {
+			if id < 0 {
+				fs = append(fs, nil) // nil entries are ignored
+				continue
+			}
 			fs = append(fs, sc.Funcs[id].fn)
 		}
 		return am.ConverterFunc(fs...)
@@ -490,6 +494,37 @@ func typedEntry(e [2]int) interface{} {
 		return err
 	}
 	return mkValue(e[0], e[1], -1).Interface()
+}
+
+// multiConv: some ConverterFunc options get nil entries (before, between, after) and absorb a later ConverterFunc
+// option of the same section
+func (sc *scenario) multiConv(r *rng) {
+	for i := 0; i < len(sc.Opts); i++ {
+		if sc.Opts[i].Kind != "convfunc" || len(sc.Opts[i].Fids) != 1 || !r.chance(1, 3) {
+			continue
+		}
+		o := sc.Opts[i]
+		fids := []int{}
+		if r.chance(1, 2) {
+			fids = append(fids, -1)
+		}
+		fids = append(fids, o.Fids[0])
+		if r.chance(1, 2) {
+			fids = append(fids, -1)
+		}
+		for j := i + 1; j < len(sc.Opts); j++ {
+			if sc.Opts[j].Kind == "convfunc" && len(sc.Opts[j].Fids) == 1 && (i < sc.Defaults) == (j < sc.Defaults) && r.chance(1, 2) {
+				fids = append(fids, sc.Opts[j].Fids[0])
+				sc.Opts = append(sc.Opts[:j], sc.Opts[j+1:]...)
+				if j < sc.Defaults {
+					sc.Defaults--
+				}
+				break
+			}
+		}
+		o.Fids = fids
+		sc.Opts[i] = o
+	}
 }
 
 // multiTyped turns some Typed options into multi-value calls: nil entries before / after the value, and
@@ -562,6 +597,10 @@ func (o optSpecC) line() string {
 	case "conv", "convfunc":
 		var s []string
 		for _, id := range o.Fids {
+			if id < 0 {
+				s = append(s, "nil")
+				continue
+			}
 			s = append(s, fmt.Sprint(id))
 		}
 		return fmt.Sprintf("opt %s %s", o.Kind, strings.Join(s, " "))
@@ -574,7 +613,11 @@ func (sc *scenario) convOrder() []int {
 	order := []int{0}
 	for _, o := range sc.Opts {
 		if o.Kind == "conv" || o.Kind == "convfunc" {
-			order = append(order, o.Fids...)
+			for _, id := range o.Fids {
+				if id >= 0 {
+					order = append(order, id)
+				}
+			}
 		}
 	}
 	// functions returned by generators have Go types of their own (genGens), so their position is immaterial
